@@ -1,3 +1,4 @@
+import HidVerif.Proofs.ExitLink
 import HidVerif.Proofs.ExitModes
 import HidVerif.Proofs.Terminal
 import HidVerif.Proofs.CoreMain
@@ -7,7 +8,10 @@ import HidVerif.Proofs.CoreMain
 (a) and (c) are theorems about `Hid/ExitModes.lean` — the model of the exit-mode bookkeeping
 of blocks.py, tied to it by the `exit` suite (the mode of every block of every accepted
 function is recomputed and compared) — against an abstract control-flow semantics in which
-every condition may go either way.  (b) is part of the `tc` suite (accept/reject).  (d) is
+every condition may go either way and every statement that evaluates an expression may be defeated.
+(b) `accepted_function_never_falls_off` (Proofs/ExitLink.lean): the modes the *typechecker model* writes into its
+tree are that analysis of the statements it kept, so for every source text every function of an accepted
+program has a body that cannot complete normally.  (d) is
 validated by the VM monitor: the program counter never reaches a function entry by falling
 through.
 -/
@@ -68,5 +72,26 @@ theorem core_activation_returns_to_caller {p : Sphinx.Prog} {ck : Bool} {B dA : 
   obtain ⟨st', r, k, _, _, h2⟩ := Core.core_frame_restored lib fok fuel F D ra hra lp hlp hvd s Γ env pc o m env' tr res hpl hB hinv hd
     hwf hpk ho hnt hex (Or.inr hres)
   exact ⟨st', r, h2 (by rcases hres with h | ⟨v, h⟩ <;> subst h <;> simp), k⟩
+
+/-- **(b), for every source text**: in every accepted program, no function body can complete normally — a value-returning
+function whose body could is rejected ("Missing return statement"), an `empty` one gets a `return;` appended. The skeleton
+semantics lets every condition go either way, every loop run any number of times and every statement that evaluates an
+expression be defeated, so this covers defeat functions called in expression position, which the analysis cannot see. -/
+theorem accepted_function_never_falls_off (lint : Bool) (src : List HidVerif.Hid.Lex.Line) (p : HidVerif.Hid.Parse.PProgram)
+    (tp : HidVerif.Hid.TC.TProgram) (hparse : HidVerif.Hid.Parse.parse src = .ok p) (htc : HidVerif.Hid.TC.tcProgram lint p = .ok tp) :
+    ∀ tf ∈ tp.funcs, ¬ Exits (HidVerif.Hid.TC.skelOf tf.body) .normal :=
+  HidVerif.Hid.TC.accepted_never_falls_off lint src p tp hparse htc
+
+/-- the hypotheses are met, and the rejection is real: the first source is accepted (the infinite loop has no `break`,
+the `try` returns on both sides), the second and third are rejected for a missing return -/
+example :
+    let line (s : String) : List HidVerif.Hid.Lex.Line := [s.toList.map Char.toNat]
+    let run (s : String) : Nat := match HidVerif.Hid.Parse.parse (line s) with
+      | .ok p => (match HidVerif.Hid.TC.tcProgram false p with | .ok _ => 0 | .error (.tc _) => 1 | .error (.internal _) => 2)
+      | .error _ => 3
+    run "int !g(int x) { !truth_is_defeat(x > 3); return x; } int @f(int x) { try { return !g(x); } undo { return 0; } } int h() { while (true) { } } empty @is_you() { write(@f(2)); }" = 0 ∧
+    run "int @f(int x) { try { return 1; } undo { write(x); } } empty @is_you() { }" = 1 ∧
+    run "int f(bool x) { while (true) { if (x) { break; } } } empty @is_you() { }" = 1 := by
+  refine ⟨by decide +kernel, by decide +kernel, by decide +kernel⟩
 
 end HidVerif.Props.C16
